@@ -1,7 +1,7 @@
 """What MANIFEST.json claims, per property.  Keep in step with the harness modules."""
 
 SOURCE_COMMITS = []
-PYVC_PROPS = {'C01', 'C02', 'C03', 'C04', 'C06', 'C08', 'C09', 'C11', 'C13', 'C16', 'C17', 'C18', 'C19', 'C20'}
+PYVC_PROPS = {'C01', 'C02', 'C03', 'C04', 'C05', 'C06', 'C07', 'C08', 'C09', 'C11', 'C13', 'C16', 'C17', 'C18', 'C19', 'C20'}
 NOTES = ('Two engines share one contract language (DESIGN.md section 2). Engine A (pyvc) is the deductive, unbounded tier; '
          'Engine B (symx) is the bounded stand-in and is labelled so in every evidence file. Exit codes: 0 held, 1 violation '
          '(replayed natively), 2 undecided, 3 checker error.')
@@ -44,7 +44,7 @@ CLAIMED = {
                      'with pairwise different sizes; round trips return the original shape and evaluate identically. Engine A, every size: managers compute v + size_v*(u + size_u*w), in range and injective; '
                      'the surface / volume evaluators read the control point that convention puts there (active-hull contracts with index-monotone ghost bounds).',
                 note=_B_NOTE),
-    'C05': dict(category='other', technique='contracts on helpers.knot_refinement / operations.refine_knotvector; per-shape exhaustive symbolic execution (symx)',
+    'C05': dict(category='other', technique='contracts on helpers.knot_refinement / operations.refine_knotvector; SMT-discharged VCs (pyvc) for the two helpers it calls (find_multiplicity, find_span_linear); per-shape exhaustive symbolic execution (symx)',
                 text='Refinement leaves evaluate_single(u) equal to the spec point of the original definition (identity in symbolic knots, parameter, control points, weights); the new knot vector '
                      'is the one written from the statement (every interior interval bisected d times, interior multiplicity = degree); unselected directions untouched; bad densities rejected.',
                 note=_B_NOTE),
@@ -52,7 +52,7 @@ CLAIMED = {
                 text='insert r times then remove t <= r times: sizes reduced by t, knot vector = original + (r-t) copies, control points and weights restored exactly when t == r, evaluation '
                      'equal to the original; also after refinement; all directions of surfaces and volumes.',
                 note=_B_NOTE),
-    'C07': dict(category='other', technique='contracts on operations.split_*/decompose_*; per-shape exhaustive symbolic execution (symx)',
+    'C07': dict(category='other', technique='contracts on operations.split_*/decompose_*; SMT-discharged VCs (pyvc) for the knot-insertion chain they call; per-shape exhaustive symbolic execution (symx)',
                 text='Every piece evaluated at the pulled-back parameter equals the spec point of the original for a symbolic split parameter (inside a span or on a knot) and symbolic u (v); '
                      'input unchanged; split at a domain end rejected; decomposition gives one Bezier piece per non-empty interval (pair), in order.',
                 note=_B_NOTE),
